@@ -373,7 +373,8 @@ inline void faultInputs(Ctx& C, bool thorough) {
                  MValue::str(std::string(40, 'x'))};
   G.keys = {"a", "b", std::string(33, 'k')};
   G.dupKeys = false;
-  int N = thorough ? 3 : 2;
+  int N = 3;
+  (void)thorough;
   MValue filterModel = MValue::object();
   filterModel.o.emplace_back("a", MValue::boolean(true));
   uint64_t plans = 0, runs = 0;
